@@ -9,6 +9,7 @@ Import-free (apart from the model), so this links as a native executable.
 import TypedPathVerif.Model.Path
 import TypedPathVerif.Spec.StdSpec
 import TypedPathVerif.Spec.StdBuf
+import TypedPathVerif.Spec.HashSpec
 
 open TP
 
@@ -225,6 +226,10 @@ def step (line : String) : String :=
   | ["hash", e, a] =>
     match parseEnc e, parseHex a with
     | some e, some a => " ".intercalate ((hashChunks e a).map hexOf)
+    | _, _ => badOp
+  | ["hashspec", e, a] =>
+    match parseEnc e, parseHex a with
+    | some e, some a => " ".intercalate ((C05.hashSpec e a).map hexOf)
     | _, _ => badOp
   | ["stdcomps", h] =>
     -- the *specification* (Spec/StdSpec.lean); the harness answers with real std::path
